@@ -10,26 +10,18 @@ _NOTE = ("Trusted base: CPython's ast parser; the facts table about stdlib / net
 
 CHECKS = {
     "C01": {
-        "technique": "static analysis: sibling guard->mechanism tables, quasi-linear threshold equality, def-use of parameters, emission-schema comparison with the documented axioms",
-        "text": "Decides structural necessary conditions, for all parameters: the pigeonhole siblings guard the same force_*_mapping "
-                "calls with the documented flags; the constraint schema each force_*_mapping / family loop emits (iteration domain, "
-                "index pattern, relation, bound) equals the documented axiom; equality variants use the same threshold as the "
-                "inequality they replace; every documented parameter is read. Does NOT decide model-set equality over all assignments.",
+        "technique": 'static analysis: emission-schema extraction (loop nest / guards / builder / literal indices in alpha-normal form) compared as a set with the documented axiom table; def-use of parameters; guard-chain contradiction; re-use of the C04 builder rules and the C16 representation rules',
+        "text": 'Decides, for all parameters and graphs, the structural clause: each of the 8 generators (pigeonhole x4, counting, matching, subset cardinality, clique-colouring) emits exactly the documented axiom schemas, none missing and none extra, with every index, sign, flag guard and bound in place (AXIOM-SCHEMA); every documented parameter reaches the constraints (DEAD-PARAM); a value the validator accepts is not refused downstream (GUARD-CHAIN); the builders the axioms are written with mean what their name says (MECHANISM/*, rules of C04); BipartiteGraph import orientation and representation (GRAPH/*); CLI options reach the parameter of the same meaning (CLI/ARG-ROLE). Does NOT decide model-set equality over all assignments: that the documented axioms characterise the combinatorial objects is trusted.',
         "note": _NOTE,
     },
     "C02": {
-        "technique": "static analysis: def-use (dead parameter), 0-based code provenance at forbid() sites, sibling symmetry-breaking tables, guard-chain contradiction",
-        "text": "Decides for all graphs/parameters: every documented parameter influences the formula (def-use), every value reaching "
-                "BinaryMappingVariables.forbid is 0-based, the symmetry-breaking siblings guard the same pair of actions, Tseitin passes "
-                "the per-vertex charge and the vertex's incident edge variables to add_parity, validators do not contradict callee guards. "
-                "Does NOT decide satisfiability equivalence over all assignments.",
+        "technique": 'static analysis: emission-schema extraction compared as a set with the documented axiom table; def-use of parameters; wrapper delegation; helper-contract rule for unique_neighborhoods (closed, fresh, deduplicated); guard-chain contradiction; re-use of C04 builder rules and all C16 graph-representation rules',
+        "text": 'Decides, for all graphs and parameters, the structural clause: each of the 11 graph-family generators emits exactly the documented axiom schemas (quantification over vertices / edges / pairs, has_edge guards, literal indices and signs), every documented parameter (k, d, s, charges, nontrivial, symbreak, alternative) influences the formula, GraphAutomorphism delegates to GraphIsomorphism(G, G), unique_neighborhoods lists distinct closed neighbourhoods without touching the graph, validated values are not refused downstream, parity / cardinality / mapping / forbid() builders are sound (rules of C04), the Graph views the families read are faithful and read-only (rules of C16). Does NOT decide satisfiability equivalence or model counts over all assignments.',
         "note": _NOTE,
     },
     "C03": {
-        "technique": "static analysis: polynomial sign-equivariance and range of literal-renaming arithmetic, interval analysis of divisors and external preconditions, sibling clause-shape tables",
-        "text": "Decides for all parameters: literal-shifting arithmetic is odd and maps into the copy's own id range; divisors exclude 0 "
-                "under the function's own validators; guards imply the preconditions of networkx.random_regular_graph; pebbling siblings "
-                "emit the same clause shape; Knuth-variant constants agree between CLI and library. Does NOT decide unsatisfiability.",
+        "technique": 'static analysis: emission-schema extraction compared as a set with the documented axiom table (the `exactly the documented axioms` clause); wrapper delegation; polynomial sign-equivariance and corner-proved range of the Pitfall literal renaming; polynomial tightness of the arithmetic-progression enumerator; def-use of parameters; CLI argument roles',
+        "text": "Decides, for all parameters, DAGs and random outcomes: each of the 10 generators (ordering x2, pebbling, stone x2, CPLS, Pitfall, Ramsey, van der Waerden, Pythagorean triples) consists of exactly the documented axiom schemas, none missing and none extra, Knuth / plant / total / smart guards included; OrderingPrinciple and StoneFormula delegate with the same flags in the same positions; the Pitfall literal shift is odd and stays in the copy's block; _vdw_ap_generator enumerates exactly the progressions inside 1..N including length 1; every parameter is live; op/peb/stone/... helpers pass each option to the right parameter. Does NOT decide unsatisfiability over all assignments (follows from the trusted documented axiom sets).",
         "note": _NOTE,
     },
     "C04": {
